@@ -41,6 +41,8 @@ inductive Skip where
   | degreeOne       -- not exactly two elements of degree one
   | degreeTwo       -- the others are not all of degree two
   | blockEnds       -- a block without inner nodes that does not join exactly two articulation points
+  | mixedSN         -- the scaffold nodes do not all carry the same SN
+  | notIncreasing   -- the scaffold nodes' SO do not strictly increase along the chain
 deriving Repr, DecidableEq
 
 /-- build the scaffold graph from the blocks and articulation points (`for bc in all_biccs`) -/
@@ -84,7 +86,7 @@ def numberChain (s : Scaffold) (trav : List Elt) : List (V × Nat × Nat) :=
 
 /-- `decompose_and_order` without the BO offset. `so id` = SO tag of a node (`none`: KeyError), `sn id` likewise.
     `.error` = the chromosome is reported and skipped; `none` inside `.ok` never occurs.
-    The asserts (all scaffold nodes on one SN; strictly increasing SO) are `Crash` outcomes. -/
+    A missing SO tag on a scaffold node is a `crash` outcome (KeyError). -/
 inductive Outcome where
   | ok (l : Local)
   | skipped (why : Skip)
@@ -108,7 +110,7 @@ def decompose (nb : V → List V) (comp : List V) (so : V → Option Int) (sn : 
       else
         let trav := scaffoldDfs s (one.headD (Elt.bubble 0))
         let scaf := trav.filterMap (fun e => match e with | .scaffold id => some id | _ => none)
-        if ((scaf.map sn).eraseDups).length != 1 then .crash "scaffold nodes on several SN"
+        if ((scaf.map sn).eraseDups).length != 1 then .skipped .mixedSN
         else
           match scaf.mapM so with
           | none => .crash "SO missing"
@@ -118,7 +120,7 @@ def decompose (nb : V → List V) (comp : List V) (so : V → Option Int) (sn : 
               | _, _ => false
             let trav := if rev then trav.reverse else trav
             let coords := if rev then coords.reverse else coords
-            if !(List.zip coords coords.tail).all (fun p => decide (p.1 < p.2)) then .crash "SO not increasing"
+            if !(List.zip coords coords.tail).all (fun p => decide (p.1 < p.2)) then .skipped .notIncreasing
             else
               .ok ⟨aps, s.bubbles.flatten, numberChain s trav, trav.length, s.bubbles.length⟩
 
